@@ -106,6 +106,28 @@ void use_dynamic(const std::vector<std::pair<K, V>> &data, K k, const V &v) {
     (void) d.find(k);
 }
 
+// copy/move operations of the sdsl value types the indexes are made of (so that their bodies are instantiated)
+template<class T>
+void use_value_ops() {
+    T a;
+    T b(a);
+    T c(std::move(a));
+    b = c;
+    b = std::move(c);
+}
+
+inline void use_sdsl_ops() {
+    use_value_ops<sdsl::int_vector<0>>();
+    use_value_ops<sdsl::int_vector<1>>();
+    use_value_ops<sdsl::int_vector<16>>();
+    use_value_ops<sdsl::int_vector<32>>();
+    use_value_ops<sdsl::sd_vector<>>();
+    use_value_ops<sdsl::sd_vector<>::select_1_type>();
+    use_value_ops<sdsl::sd_vector<>::select_0_type>();
+    use_value_ops<sdsl::select_support_mcl<1, 1>>();
+    use_value_ops<sdsl::select_support_mcl<0, 1>>();
+}
+
 template<class K>
 void use_segmentation(const std::vector<K> &data, size_t eps) {
     using seg = typename pgm::internal::OptimalPiecewiseLinearModel<K, size_t>::CanonicalSegment;
@@ -172,7 +194,7 @@ def body_for(configs):
 
 
 def make_unit(name, configs):
-    src = PRELUDE + f"\nvoid drive_{name}() {{\n" + body_for(configs) + "}\n"
+    src = PRELUDE + f"\nvoid drive_{name}() {{\n    drv::use_sdsl_ops();\n" + body_for(configs) + "}\n"
     return name, src, configs
 
 
